@@ -66,8 +66,14 @@ def _inlinable(model, h: FuncInfo, caller: Optional[FuncInfo] = None) -> bool:
     for x in walk_scope(n):
         if isinstance(x, (ast.Yield, ast.YieldFrom, ast.Await, ast.Global, ast.Nonlocal)):
             return False
-        if isinstance(x, (ast.FunctionDef, ast.AsyncFunctionDef, ast.ClassDef, ast.Lambda)):
-            return False  # closures over the helper's locals: keep the call
+        if isinstance(x, (ast.AsyncFunctionDef, ast.ClassDef)):
+            return False
+        if isinstance(x, (ast.FunctionDef, ast.Lambda)):
+            # local functions move into the caller together with the locals they close over (renamed
+            # consistently); not if they re-bind a name of the helper themselves (shadowing)
+            inner_bound = {a.arg for a in ast.walk(x) if isinstance(a, ast.arg)} | {y.id for y in ast.walk(x) if isinstance(y, ast.Name) and isinstance(y.ctx, ast.Store)}
+            if inner_bound & (set(h.params) | h.local_names()):
+                return False
         if isinstance(x, ast.Call):
             t = model.resolve_call(h, x)
             if t.kind == "func" and t.target is h:
@@ -160,8 +166,10 @@ class _Subst(ast.NodeTransformer):
         return self.generic_visit(n)
 
 
-def _bind(model, caller: FuncInfo, call: ast.Call, h: FuncInfo):
-    """(substitutions, prologue assignments, renames) or None."""
+def _bind(model, caller: FuncInfo, call: ast.Call, h: FuncInfo, targets=()):
+    """(substitutions, prologue assignments, renames) or None.  `targets`: names the result of the
+    call is assigned to -- a helper local of the same name needs no renaming (the caller's variable is
+    overwritten by the assignment anyway) unless the arguments read it."""
     kind = _decorator_kind(h)
     a = h.node.args
     params = [x.arg for x in a.posonlyargs + a.args]
@@ -221,8 +229,11 @@ def _bind(model, caller: FuncInfo, call: ast.Call, h: FuncInfo):
                 continue  # `p = p`: the parameter keeps standing for the caller's variable of the same name
             prologue.append(ast.copy_location(ast.Assign(targets=[ast.Name(id=new, ctx=ast.Store())], value=copy.deepcopy(v), lineno=call.lineno), call))
     hparams = set(bound)
+    arg_names = {x.id for a_ in list(call.args) + [k.value for k in call.keywords] for x in ast.walk(a_) if isinstance(x, ast.Name)}
     for loc in assigned:
         if loc in hparams:
+            continue
+        if loc in targets and loc not in arg_names:
             continue
         if loc in caller_names:
             renames[loc] = loc + tag
@@ -314,7 +325,12 @@ def _expand_stmt(model, caller: FuncInfo, st, inventory) -> Optional[list]:
     h = t.target
     if h.parent is not None and isinstance(h.parent, FuncInfo) and h.parent is not caller:
         return None  # a closure of some other function
-    b = _bind(model, caller, call, h)
+    tnames = ()
+    if isinstance(target, str):
+        tnames = (target,)
+    elif isinstance(target, (ast.Tuple, ast.List)):
+        tnames = tuple(e.id for e in target.elts if isinstance(e, ast.Name))
+    b = _bind(model, caller, call, h, tnames)
     if b is None:
         return None
     subst, prologue, renames = b
